@@ -10,6 +10,7 @@ import (
 	"bytes"
 	"fmt"
 	"math/big"
+	"strings"
 
 	secp256k1 "gitlab.com/yawning/secp256k1-voi"
 
@@ -100,6 +101,35 @@ func runMSM(vartime bool, ents [][2]int, sameObj bool, recv int) string {
 	return ""
 }
 
+// runLong: a long list (past any internal batch boundary) of deterministic terms s_i * (k_i G); receiver
+// fresh (-1) or the list entry at index recv.
+func runLong(vartime bool, n, recv int) string {
+	scs := make([]*Scalar, n)
+	pts := make([]*Point, n)
+	acc := big.NewInt(0)
+	for i := 0; i < n; i++ {
+		s := ref.ModN(ref.OS2IP(ref.TaggedHash("verif/C16-long-s", []byte{byte(i), byte(i >> 8)})))
+		k := big.NewInt(int64(i%13 + 1))
+		if i%5 == 0 {
+			s = big.NewInt(int64(i % 3)) // zero and small scalars inside the list
+		}
+		scs[i] = lib.MkSC(s)
+		pts[i] = lib.MkPTRep(ref.G().Mul(k), big.NewInt(int64(i+2)))
+		acc = ref.ZnAdd(acc, ref.ZnMul(s, k))
+	}
+	want := ref.BaseMul(acc)
+	v := new(Point)
+	if recv >= 0 {
+		v = pts[recv]
+	}
+	if vartime {
+		v.MultiScalarMultVartime(scs, pts)
+	} else {
+		v.MultiScalarMult(scs, pts)
+	}
+	return lib.CheckPointLight(v, want)
+}
+
 func runMismatch(vartime bool, ns, np int) string {
 	scs := make([]*Scalar, ns)
 	pts := make([]*Point, np)
@@ -176,6 +206,7 @@ func register() {
 	mc.Register("msm", func(d mc.D) string {
 		return runMSM(d.Bool("vartime"), dEnts(d.IL("entries")), d.Bool("same_objects"), d.I("recv"))
 	})
+	mc.Register("long", func(d mc.D) string { return runLong(d.Bool("vartime"), d.I("n"), d.I("recv")) })
 	mc.Register("mismatch", func(d mc.D) string { return runMismatch(d.Bool("vartime"), d.I("ns"), d.I("np")) })
 	mc.Register("dsm", func(d mc.D) string {
 		return runDSM(d.Big("u1"), d.Big("u2"), lib.HexPt(d.S("p")), d.Big("z"), d.Bool("aliased"))
@@ -274,6 +305,49 @@ func main() {
 	if R.Expired() {
 		R.Cap("list enumeration stopped by the internal time budget")
 	}
+	// long lists: every length 5..40 and lengths around powers of two up to 260, receiver fresh / first / last /
+	// at and around each power-of-two index (internal batching boundaries are unknown to the check)
+	var lens []int
+	for n := 5; n <= 40; n++ {
+		lens = append(lens, n)
+	}
+	for _, b := range []int{64, 128, 256} {
+		for d := -1; d <= 2; d++ {
+			lens = append(lens, b+d)
+		}
+	}
+	type lj struct {
+		vt      bool
+		n, recv int
+	}
+	var ljs []lj
+	for _, n := range lens {
+		recvs := map[int]bool{-1: true, 0: true, n - 1: true, n / 2: true}
+		for _, b := range []int{63, 64, 65, 127, 128, 129, 255, 256} {
+			if b < n {
+				recvs[b] = true
+			}
+		}
+		for rv := range recvs {
+			for _, vt := range []bool{false, true} {
+				if !th && n > 40 && rv > 0 && rv < n-1 && vt != (rv%2 == 0) {
+					continue
+				}
+				ljs = append(ljs, lj{vt, n, rv})
+			}
+		}
+	}
+	mc.Par(len(ljs), func(i int) {
+		j := ljs[i]
+		R.T(1)
+		h := mc.HS("long", fmt.Sprint(j))
+		R.State(h)
+		R.NT(h)
+		if m := mc.Safe(func() string { return runLong(j.vt, j.n, j.recv) }); m != "" {
+			R.Mismatch(fmt.Sprintf("msm/long list/vartime=%v/receiver in list=%v", j.vt, j.recv >= 0), "long", m, mc.D{"vartime": j.vt, "n": j.n, "recv": j.recv})
+		}
+	})
+	R.Class("lists/long (5..40, 63..66, 127..130, 255..258 terms) x receiver placements", int64(len(ljs)))
 	// mismatched lengths
 	for ns := 0; ns <= 3; ns++ {
 		for np := 0; np <= 3; np++ {
@@ -289,8 +363,12 @@ func main() {
 
 	// DoubleScalarMultBasepointVartime
 	us := []*big.Int{big.NewInt(0), big.NewInt(1), big.NewInt(2), new(big.Int).Sub(ref.N, big.NewInt(1)), ref.HalfN, ref.Lambda, scAlpha[6], scAlpha[7], big.NewInt(0xff), new(big.Int).Lsh(big.NewInt(1), 128)}
-	if th {
-		for _, v := range mc.GLVScalars(false)[:40] {
+	for gi, v := range mc.GLVScalars(false) {
+		if strings.HasPrefix(v.Label, "rounding") || strings.HasPrefix(v.Label, "quotient") {
+			if th || strings.Contains(v.Label, "m=ffffffffffffffff,") || gi%11 == 0 {
+				us = append(us, v.V)
+			}
+		} else if th && gi%9 == 0 {
 			us = append(us, v.V)
 		}
 	}
